@@ -75,6 +75,48 @@ func checkC01(c *Ctx) {
 		c.Case(src, len(g.Used) >= 3)
 	}
 	c.Cov("feature_counts", featCount)
+	// extended fragment (not part of C01's statement, which is about the core language): programs that also call the modelled
+	// library (GrolSem ExtSigs: int, round, floor, ceil, trunc, sqrt, min, max, split, join, runes, rune_len, trim*, abs, keys).
+	// Disagreements there are reported as EXTENDED-DEVIATION lines and in the evidence, never as a C01 violation.
+	extended := map[int]bool{}
+	nLib := c.Pick(500, 15000)
+	libFeat := map[string]int{}
+	for i := 0; i < nLib; i++ {
+		g := NewGen(rand.New(rand.NewSource(c.Seed*1000033 + int64(i))))
+		for f := range off {
+			g.Off[f] = true
+		}
+		g.PLib = 25
+		prog := g.Program(3 + g.pick(6))
+		if !g.Used["lib"] {
+			continue
+		}
+		src := renderProgram(prog)
+		o := runSource(src, RunOpt{})
+		if o.ParseErr {
+			continue
+		}
+		for f := range g.Used {
+			if strings.HasPrefix(f, "lib-") {
+				libFeat[f]++
+			}
+		}
+		id := 10000000 + i
+		extended[id] = true
+		cases = append(cases, semCase{ID: id, Src: src, Prog: prog, Obs: o, Meta: map[string]any{"features": featureKey(g.Used)}})
+	}
+	for i, src := range libProbes {
+		tree, errs := parseFile(src)
+		if len(errs) > 0 {
+			c.Infra(fmt.Errorf("library probe does not parse: %s", src))
+			return
+		}
+		prog := dumpStmts(tree)
+		id := 20000000 + i
+		extended[id] = true
+		cases = append(cases, semCase{ID: id, Src: src, Prog: prog, Obs: runSource(src, RunOpt{}), Meta: map[string]any{"features": []string{"lib-probe"}}})
+	}
+	c.Cov("extended_fragment_library_calls", libFeat)
 	// exhaustive small-scope sets (seed independent; quick samples them by a seed-dependent stride)
 	small := c01SmallCases(c.Thorough())
 	stride := 1
@@ -122,11 +164,23 @@ func checkC01(c *Ctx) {
 		return
 	}
 	fuel := 0
+	extN, extBad := 0, []map[string]any{}
 	for _, cs := range cases {
 		v, ok := vs[cs.ID]
 		if !ok {
 			c.Infra(fmt.Errorf("no verdict for program %d", cs.ID))
 			return
+		}
+		if extended[cs.ID] {
+			extN++
+			if v.V != "ok" && v.V != "fuel" {
+				fmt.Printf("EXTENDED-DEVIATION (library fragment, outside C01's statement) %s: %q real out=%q val=%s err=%v; reference out=%q val=%q err=%v\n",
+					v.V, cs.Src, cs.Obs.Out, jstr(cs.Obs.Val), cs.Obs.Err, v.PredOut(), v.PredVal(), v.Err)
+				if len(extBad) < 20 {
+					extBad = append(extBad, map[string]any{"src": cs.Src, "verdict": v.V})
+				}
+			}
+			continue
 		}
 		switch v.V {
 		case "ok":
@@ -143,6 +197,7 @@ func checkC01(c *Ctx) {
 		}
 	}
 	c.Cov("fuel_exhausted_not_counted", fuel)
+	c.Cov("extended_fragment", map[string]any{"programs": extN, "deviations": extBad})
 }
 
 func replayC01(rp map[string]any) (bool, string) {
